@@ -144,6 +144,7 @@ type Engine struct {
 	top          *frame
 	curInitPkg   *ssa.Package
 	poolItems    map[*Value][]Value
+	poolVCs      map[*Value][]vclock // release clocks of the Put objects (Put happens-before the Get that returns the object)
 	poolDirty    bool
 	ptrIDs       map[*Value]int
 	witnessCount int
